@@ -282,3 +282,21 @@ _amend("C17", "level", "comma lists well formed, Parameter form;",
        "comma lists well formed with a C variadic as a list item of its own, Parameter form, every type-id position (parameter, alias) accepting the array suffix format() writes;")
 _amend("C17", "note", "three defects were repaired (reference to function, array dimension order, pointer/reference/function around pointer-to-array/function).",
        "six defects were repaired (reference to function, array dimension order, pointer/reference/function around pointer-to-array/function, variadic after parameters, alias of an array type, rvalue reference to array/function).")
+
+# ---- round 4 / refactoring round 3 (DESIGN 9.9)
+_amend("C12", "level", "lookup-or-create shape of on_namespace_start (five obligations incl. descend-on-every-iteration and start-at-parent-scope)",
+       "on_namespace_start interpreted over 15 scope trees x name lists (every component looked up in the scope reached so far, reused by identity when present, created under its own name when "
+       "missing, walk started at the enclosing scope, block bound to the innermost scope - whatever lookup idiom is used), start callbacks choosing a scope from the parent state only (no visitor-level cache)")
+_amend("C12", "technique", "must-pass-through on the namespace walk", "abstract interpretation of the namespace walk over an enumerated family of scope trees")
+_amend("C11", "level", "reset points of the top-level loop and the attribute-only exception set,",
+       "the top-level loop walked per token type (which handler receives the pending text, whether it is reset before the next iteration: kept only after attribute introducers whose handlers ignore it), "
+       "no shrinking mutation of the collected comments,")
+_amend("C11", "technique", "must-pass-through on the comment scans", "per-token-class walks of the comment scans and of the dispatch loop with decided branch conditions")
+_amend("C06", "level", "handler safety (every token that can reach the handler is stamped;",
+       "handler safety (every token that can reach the handler is stamped: each LexError built around a token is dominated by the stamp of that token and raised at once or returned by a factory whose calls are all raised;")
+_amend("C06", "level", "validate after every _parse_type)", "validate after every _parse_type, the validator itself interpreted over all 32 modifier combinations)")
+_amend("C15", "level", "prototype-lexer discipline (assigned once under is-None,", "no memoising decorator anywhere in the package; prototype-lexer discipline (built by the one method that calls lex.lex, assigned once under is-None,")
+_amend("C15", "technique", "ordering by dominance in PlyLexer.__new__", "ordering by dominance in the prototype builder")
+_amend("C19", "level", "Anchoring of the marker file-name comparison in all three filters (sibling cross-check)", "Anchoring of the marker file-name comparison in all three filters (sibling cross-check; both sides unprojected)")
+_amend("C13", "level", "Pair agreement and opener dominance at all 7 _discard_contents sites", "Pair agreement (or opener membership, when the skipper looks the closer up itself) and opener dominance at all 7 _discard_contents sites")
+_amend("C03", "level", "are right-anchored ([-1] own name, [-2] enclosing class).", "are right-anchored ([-1] own name, [-2] enclosing class); a plain segment is named by the NAME token just matched.")
